@@ -1094,8 +1094,8 @@ func genC18(t *rapid.T) *c18Case {
 }
 
 var _ = register(&propSpec{
-	ID:   "C18.filter",
-	Rule: "one data filter applied (ApplyFilter and {{ v|f:p }} must agree) to generated strings (multi-byte), sequences of every sliceable kind incl. by-value arrays, numbers; parameters passed as context values (so negatives are reachable); compared with small independent reference functions / shape predicates. Non-trivial: parameter on or beyond a boundary (negative, 0, =len, >len, blank, empty separator...) or multi-byte input; distinct by whole case.",
+	ID:    "C18.filter",
+	Rule:  "one data filter applied (ApplyFilter and {{ v|f:p }} must agree) to generated strings (multi-byte), sequences of every sliceable kind incl. by-value arrays, numbers; parameters passed as context values (so negatives are reachable); compared with small independent reference functions / shape predicates. Non-trivial: parameter on or beyond a boundary (negative, 0, =len, >len, blank, empty separator...) or multi-byte input; distinct by whole case.",
 	Gen:   func(t *rapid.T) any { return genC18(t) },
 	New:   func() any { return &c18Case{} },
 	Check: checkC18,
